@@ -3,7 +3,7 @@ import vlib
 CFG = dict(
     imports=["From Verif.Common Require Import Prefix.", "From Verif.C36 Require Import Model Spec."],
     checker="check_case",
-    n=dict(quick=300, thorough=12000),
+    n=dict(quick=240, thorough=12000),
     shard=25,
     rule="operation sequences (12-40 ops: Update/Delete/Get/LPM/Covers/Intersects/ClosestDescendants/LookupPath/ToSlice) on "
          "the real CIDRTrie, IPv4 (60%) and IPv6 (40%), prefixes drawn from a per-case pool concentrated in 10.0.0.0/28 and "
@@ -25,9 +25,9 @@ MANIFEST = dict(
     category="proof",
     text="Theorems over an executable model of the Patricia CIDR trie (intermediate nodes, width parameter covering IPv4 "
          "and IPv6): the well-formedness invariant is preserved by Update/Delete, ToSlice is the sorted finite map of "
-         "stored prefixes, and Get/LPM (host queries)/Covers/Intersects/LookupPath equal direct prefix arithmetic over "
-         "that map for every history; ClosestDescendants and LPM with shorter-than-host queries are checked by the "
-         "specification oracle on the correspondence run only (no theorem yet); plus a correspondence run of model and spec "
+         "stored prefixes, and Get/LPM (host and arbitrary CIDR queries)/Covers/Intersects/ClosestDescendants/LookupPath "
+         "equal direct prefix arithmetic over that map for every history; the specification oracle is proved to accept "
+         "every model run (c36_model_meets_spec); plus a correspondence run of model and spec "
          "oracle against the real Go trie.",
     note="Trusted: Coq kernel; hand-written model tied to the code only by the correspondence run; Go driver.",
 )
